@@ -192,6 +192,14 @@ pub fn check_tree(xot: &Xot, m: &Forest, h: &[Option<Node>], root: usize, count:
         expect("child_index(self)", n, &xot.child_index(xn, xn), &None, m)?;
 
         if !ordinary {
+            // the plain variants started AT an attribute or namespace node: such a node has no
+            // ordinary descendants and the plain variants never expose attribute / namespace nodes
+            let none: Vec<usize> = vec![];
+            let none_e: Vec<E> = vec![];
+            expect("children (of an attribute/namespace node)", n, &t.nodes(xot.children(xn), "children", n)?, &none, m)?;
+            expect("traverse (from an attribute/namespace node)", n, &t.edges(xot.traverse(xn), "traverse", n)?, &none_e, m)?;
+            expect("reverse_traverse (from an attribute/namespace node)", n, &t.edges(xot.reverse_traverse(xn), "reverse_traverse", n)?, &none_e, m)?;
+            expect("descendants (of an attribute/namespace node)", n, &t.nodes(xot.descendants(xn), "descendants", n)?, &none, m)?;
             continue;
         }
         // --- ordinary start nodes
